@@ -663,6 +663,8 @@ pub struct CfgSites {
     pub collect_calls: Vec<(String, String, String)>,
     /// every place that can change the length or the content of a chunk's `code` / `lines` vectors: (file, enclosing fn, what)
     pub chunk_writes: Vec<(String, String, String)>,
+    /// every place that writes one of the tracked fields of the run-time structures: (field, file, enclosing fn, what)
+    pub state_writes: Vec<(String, String, String, String)>,
     pub intern_uses: Vec<(String, String, String)>,
     pub intern_methods: Vec<String>,
     pub cfgs: Vec<(String, String, String, String, usize)>, // file, where, predicate, form, line
@@ -673,6 +675,7 @@ pub struct CfgSites {
 struct CfgSink {
     collect_calls: Vec<(String, String, String)>,
     chunk_writes: Vec<(String, String, String)>,
+    state_writes: Vec<(String, String, String, String)>,
     intern_uses: Vec<(String, String, String)>,
     intern_methods: Vec<String>,
     cfgs: Vec<(String, String, String, String, usize)>,
@@ -830,6 +833,59 @@ impl SiteSink for CfgSink {
                 _ => {}
             }
         }
+        // tracked fields of the run-time structures: every assignment to `<expr>.F`, every method call on `<expr>.F` that is not a known
+        // read, every `&mut <expr>.F`
+        {
+            const TRACKED: &[&str] = &[
+                "open_upvalues", "exc_handlers", "caller", "frames", "return_ip", "return_value", "error_ip", "handling_exception", "modules", "imported",
+                "range_cache", "working_class_def", "superclass", "methods", "metaclass", "bytes_allocated", "next_gc", "num_roots", "colour", "active_module",
+                "string_store", "call_arity", "native_arity",
+            ];
+            const READS: &[&str] = &[
+                "len", "iter", "get", "last", "first", "is_empty", "is_some", "is_none", "as_ref", "borrow", "clone", "unwrap", "expect", "contains_key", "as_gc", "as_ptr",
+                "map", "copied", "cloned", "values", "keys", "mark", "blacken", "eq", "ne", "is_open_with_pred", "as_root", "fmt", "to_string", "find", "rev", "position",
+                "unwrap_or_default", "unwrap_or", "as_deref", "and_then", "or", "filter", "any", "all", "capacity", "set", "get_or_insert_with",
+            ];
+            fn tracked_of(e: &Expr) -> Option<String> {
+                match e {
+                    Expr::Field(f) => match &f.member {
+                        syn::Member::Named(i) if TRACKED.contains(&i.to_string().as_str()) => Some(i.to_string()),
+                        _ => None,
+                    },
+                    Expr::Paren(p) => tracked_of(&p.expr),
+                    Expr::Reference(r) => tracked_of(&r.expr),
+                    _ => None,
+                }
+            }
+            // `set` on a Cell (colour.set, num_roots.set) IS a write: handled before the read list
+            match e {
+                Expr::MethodCall(mc) => {
+                    if let Some(fld) = tracked_of(&mc.receiver) {
+                        let m = mc.method.to_string();
+                        let is_cell_write = matches!(m.as_str(), "set" | "replace" | "take" | "swap") ;
+                        if is_cell_write || !READS.contains(&m.as_str()) {
+                            self.state_writes.push((fld, ctx.file.clone(), ctx.fn_name(), format!(".{}", m)));
+                        }
+                    }
+                }
+                Expr::Assign(a) => {
+                    if let Some(fld) = tracked_of(&a.left) {
+                        self.state_writes.push((fld, ctx.file.clone(), ctx.fn_name(), "= ..".to_string()));
+                    }
+                }
+                Expr::Binary(b) if matches!(b.op, syn::BinOp::AddAssign(_) | syn::BinOp::SubAssign(_) | syn::BinOp::MulAssign(_)) => {
+                    if let Some(fld) = tracked_of(&b.left) {
+                        self.state_writes.push((fld, ctx.file.clone(), ctx.fn_name(), "op= ..".to_string()));
+                    }
+                }
+                Expr::Reference(r) if r.mutability.is_some() => {
+                    if let Some(fld) = tracked_of(&r.expr) {
+                        self.state_writes.push((fld, ctx.file.clone(), ctx.fn_name(), "&mut".to_string()));
+                    }
+                }
+                _ => {}
+            }
+        }
         // the string intern table: every method called on it, and every method it has
         if let Expr::MethodCall(mc) = e {
             let recv = compact(&toks(&*mc.receiver));
@@ -914,6 +970,7 @@ pub fn cfg_sites(srcs: &[Src]) -> R<CfgSites> {
     let mut out = CfgSites {
         collect_calls: Vec::new(),
         chunk_writes: Vec::new(),
+        state_writes: Vec::new(),
         intern_uses: Vec::new(),
         intern_methods: Vec::new(),
         cfgs: Vec::new(),
@@ -925,6 +982,7 @@ pub fn cfg_sites(srcs: &[Src]) -> R<CfgSites> {
         let mut sink = CfgSink {
             collect_calls: Vec::new(),
             chunk_writes: Vec::new(),
+            state_writes: Vec::new(),
             intern_uses: Vec::new(),
             intern_methods: Vec::new(),
             cfgs: Vec::new(),
@@ -942,6 +1000,7 @@ pub fn cfg_sites(srcs: &[Src]) -> R<CfgSites> {
         out.cfgs.extend(sink.cfgs);
         out.collect_calls.extend(sink.collect_calls);
         out.chunk_writes.extend(sink.chunk_writes);
+        out.state_writes.extend(sink.state_writes);
         out.intern_uses.extend(sink.intern_uses);
         for m in sink.intern_methods {
             if !out.intern_methods.contains(&m) {
@@ -1045,6 +1104,13 @@ impl CfgSites {
             "chunkWrites",
             "List (String × String × String)",
             &self.chunk_writes.iter().map(|(f, w, c)| format!("({}, {}, {})", lean_str(f), lean_str(w), lean_str(c))).collect::<Vec<_>>(),
+        );
+        l.comment("");
+        l.comment("Every place that writes a tracked field of the run-time structures (assignments, method calls other than known reads, `&mut` borrows; verif_hooks / test items stripped): (field, file, enclosing fn, what).");
+        l.def_list(
+            "stateWrites",
+            "List (String × String × String × String)",
+            &self.state_writes.iter().map(|(a, f, w, c)| format!("({}, {}, {}, {})", lean_str(a), lean_str(f), lean_str(w), lean_str(c))).collect::<Vec<_>>(),
         );
         l.comment("");
         l.comment("Every method call on the string intern table (`…string_store.m(..)`; verif_hooks / test items stripped): (file, enclosing fn, method).");
